@@ -465,6 +465,16 @@ func main() {
 	if repo == "" {
 		repo = "/repo"
 	}
+	// VERIF_SKEL_TARGETS="key:file:receiver:function,..." replaces the target list (used by checks other than C10)
+	if spec := os.Getenv("VERIF_SKEL_TARGETS"); spec != "" {
+		targets = nil
+		for _, one := range strings.Split(spec, ",") {
+			p := strings.Split(one, ":")
+			if len(p) == 4 {
+				targets = append(targets, target{p[0], p[1], p[2], p[3]})
+			}
+		}
+	}
 	fset := token.NewFileSet()
 	files := map[string]*ast.File{}
 	w := &walker{fset}
